@@ -33,7 +33,7 @@ theorem connect_core {c : Ctx} {s : Store} {chain rest : List Block} {b : Block}
         AMap.get s'.balance w = some (totalU ((occsOfBlock b).foldl (applyOcc c.p c.own) B0).L w)) ∧
       (∀ h, AMap.get s'.sync h = syncOf (chain ++ [b]) h) ∧ s'.syncedTo + 1 = (chain ++ [b]).length ∧
       s'.status = s.status := by
-  have F : FilterCtx c s (readyWallets s c.wallets) chain rest b B0 := ⟨hnode, hvalid, hAR, hGl0, hR0.credits⟩
+  have F : FilterCtx c s (readyWallets s c.wallets) chain rest b B0 := ⟨hnode, hvalid, hAR, hGl0, fun k h => by rw [hR0.credits k]; exact h⟩
   obtain ⟨recs, hf, hM⟩ := filterTxs_block F F.valid_block
   have hbm : ∀ oc ∈ occsOfBlock b, oc.bm = ⟨b.height, b.id⟩ := fun oc h => mem_occsFrom_bm h
   have hB0 : AgreeBal (readyWallets s c.wallets)
